@@ -83,6 +83,7 @@ type Unit struct {
 	readRec    map[string]bool // probe: memory kinds read
 	probing    int
 	FnName     string // display name when the unit is not a function (lemma)
+	panicking  int    // > 0 while the deferred calls of a recovered panic are executed
 }
 
 func (e *Engine) NewUnit(fn *ssa.Function, bc *BoundContract) *Unit {
@@ -550,6 +551,21 @@ func (u *Unit) runFunction(fr *frame, st *State, args []Val) ([]Val, *State) {
 		}
 	}
 	fr.runBlocks(blocks, incoming, nil)
+	// recovered panics: every state that reached a panic (failed runtime check, explicit panic, a call that may panic)
+	// continues with the deferred calls - the first of which recovers (shape checked) - and then with the function's
+	// recover block, which returns the named results; postconditions therefore also cover these exits
+	if fn.Recover != nil && len(fr.panics) > 0 && fr.bc != nil && fr.bc.Recovers && u.specMode == 0 {
+		pst := u.mergeStates(fr.panics)
+		if pst != nil && !pst.pc.IsFalse() {
+			pst = pst.clone()
+			fr.panics = nil
+			u.panicking++
+			fr.runDefers(pst)
+			u.panicking--
+			inc := map[*ssa.BasicBlock][]edge{fn.Recover: {{nil, pst}}}
+			fr.runBlocks([]*ssa.BasicBlock{fn.Recover}, inc, nil)
+		}
+	}
 	if len(fr.rets) == 0 {
 		return nil, nil
 	}
@@ -737,8 +753,8 @@ func (fr *frame) execBlock(b *ssa.BasicBlock, st *State, ins []edge, emit func(*
 
 func (fr *frame) onPanic(st *State, x *ssa.Panic) {
 	u := fr.u
-	if fr.recovers() {
-		fr.panics = append(fr.panics, st)
+	if rf := fr.recoverFrame(); rf != nil {
+		rf.panics = append(rf.panics, st)
 		return
 	}
 	name := "panic " + u.srcText(fr.fn, x.Pos(), "call")
@@ -755,13 +771,31 @@ func (fr *frame) recovers() bool {
 	return false
 }
 
+// recoverFrame: the nearest enclosing frame whose function recovers.
+func (fr *frame) recoverFrame() *frame {
+	for f := fr; f != nil; f = f.parent {
+		if f.bc != nil && f.bc.Recovers {
+			return f
+		}
+	}
+	return nil
+}
+
 // safety emits a safety obligation unless panics are contained by a verified recover.
 func (fr *frame) safety(st *State, kind string, pos token.Pos, want string, goal *Term) {
 	u := fr.u
 	if u.specMode > 0 {
 		return
 	}
-	if fr.recovers() {
+	if rf := fr.recoverFrame(); rf != nil {
+		// a failed check panics; the panic is caught by the recovering function: that path goes on at its deferred
+		// calls (see runFunction), this one under the assumption that the check passed
+		ps := st.clone()
+		ps.pc = u.C.And(st.pc, u.C.Not(goal))
+		if !ps.pc.IsFalse() {
+			rf.panics = append(rf.panics, ps)
+		}
+		u.assume(st, goal)
 		return
 	}
 	name := kind + " " + u.srcText(fr.fn, pos, want)
